@@ -91,6 +91,7 @@ impl<P: SizedPayload> St<P> {
             OpK::Unwrap => self.op_unwrap(i, op[2]),
             OpK::Move => self.op_move(i, op[2], op[3]),
             OpK::Compare => self.op_compare(i, op[2], op[3]),
+            OpK::Nested => self.op_nested(i, op[2], op[3]),
         }
         viol::set_ctx("");
         self.check_all();
@@ -1072,6 +1073,78 @@ impl<P: SizedPayload> St<P> {
             }
         }
         self.log(|| format!("compare/hash/format slots {} and {} (variant {}) -> {:?}", i, j, b, res));
+    }
+
+    /// Re-entrancy: inside a with_arc-style callback of slot `i`, clone the lent handle and call a
+    /// uniqueness-gated API on the clone (which now co-owns the value with everyone else).
+    fn op_nested(&mut self, i0: usize, b: u8, c: u8) {
+        let Some(i) = self.find(i0, |k| matches!(k, Kind::Arc | Kind::Off | Kind::Raw)) else { return self.op_read(i0) };
+        let ai = self.slots[i].alloc;
+        let owners = self.allocs[ai].owners as usize;
+        let which = pick(c, 5);
+        let clones_before = tok::clones();
+        // what happens inside the callback, given the lent &Arc<P>; returns (verdict/ok, count seen, description)
+        let inner = |x: &Arc<P>| -> (bool, usize, &'static str) {
+            let seen = Arc::count(x);
+            let mut c2 = x.clone(); // owners + 1 now
+            let r = match which {
+                0 => (Arc::get_mut(&mut c2).is_none() && !c2.is_unique(), "get_mut / is_unique on a clone inside the callback must decline"),
+                1 => match Arc::try_unwrap(c2) {
+                    Ok(v) => {
+                        std::mem::forget(v);
+                        return (false, seen, "try_unwrap on a clone inside the callback succeeded");
+                    }
+                    Err(back) => {
+                        c2 = back;
+                        (true, "try_unwrap on a clone inside the callback declines")
+                    }
+                },
+                2 => match Arc::try_unique(c2) {
+                    Ok(u) => {
+                        std::mem::forget(u);
+                        return (false, seen, "try_unique on a clone inside the callback succeeded");
+                    }
+                    Err(back) => {
+                        c2 = back;
+                        (true, "try_unique on a clone inside the callback declines")
+                    }
+                },
+                3 => {
+                    // copy-on-write on the clone: must copy (shared), the copy is dropped right here
+                    let before = Arc::as_ptr(&c2);
+                    let _ = Arc::make_mut(&mut c2).peekp();
+                    (Arc::as_ptr(&c2) != before && Arc::count(&c2) == 1, "make_mut on a clone inside the callback must redirect to a sole-owner copy")
+                }
+                _ => {
+                    let v = Arc::unwrap_or_clone(c2.clone());
+                    let ok = v.peekp().ok;
+                    drop(v);
+                    (ok, "unwrap_or_clone on a clone inside the callback returns a clone")
+                }
+            };
+            drop(c2);
+            (r.0, seen, r.1)
+        };
+        let (ok, seen, what) = match &self.slots[i].h {
+            H::Arc(a) => match pick(b, 2) {
+                0 => lib!(a.borrow_arc().with_arc(inner)),
+                _ => lib!(a.with_raw_offset_arc(|o| o.with_arc(inner))),
+            },
+            H::Off(o) => lib!(o.with_arc(inner)),
+            H::Raw(p) => lib!(unsafe { ArcBorrow::from_ptr(*p) }.with_arc(inner)),
+            _ => unreachable!(),
+        };
+        if !ok {
+            viol::report(&["C03", "C09", "C08"], "U.nested-verdict", format!("{} (slot {}, alloc #{}, {} owners outside)", what, i, ai, owners));
+        }
+        self.cb_count("nested callback", seen, ai);
+        // the copy made by make_mut / unwrap_or_clone inside the callback has been dropped again
+        let expect_clones = if which >= 3 { 1 } else { 0 };
+        let clones = tok::clones() - clones_before;
+        if !P::ZST && clones != expect_clones {
+            viol::report(&["C08", "C09"], "W.nested-clones", format!("{}: Clone::clone ran {} times (expected {})", what, clones, expect_clones));
+        }
+        self.log(|| format!("nested: {} on slot {} (alloc #{}, {} owners)", what, i, ai, owners));
     }
 
     /// Release everything in a generated order; afterwards nothing may be alive or leaked.
